@@ -1415,6 +1415,10 @@ impl<'input, T: Input> Scanner<'input, T> {
     fn fetch_flow_collection_end(&mut self, tok: TokenType<'input>) -> ScanResult {
         self.remove_simple_key()?;
         self.decrease_flow_level();
+        if self.flow_level == 0 {
+            // No flow collection is open any more: what follows is not inside a flow mapping.
+            self.flow_mapping_started = false;
+        }
 
         self.disallow_simple_key();
 
